@@ -7,6 +7,8 @@ implementation is observed to fail exactly when the model fails and to continue 
 the model continues.  The theorems say what "continue" means after a failure.
 -/
 import GoNfsd.Lemmas.FsStep
+import GoNfsd.Model.Txn
+import GoNfsd.Lemmas.BlockTree
 
 namespace GoNfsd.Props.C09
 open GoNfsd.Model.Fs
@@ -54,5 +56,155 @@ theorem unsupported_no_effect (s : FS) (c : Choice) (fh dfh name : Bytes) :
     freshly formatted file system). -/
 example : (step (mkfs true 100000) (.rename (mkFh 1 1) [120] (mkFh 1 1) [121]) {}).2.isOk = false := by
   decide
+
+/-! ### below the reference model: what makes "no trace" true in the server -/
+
+section cache
+open GoNfsd.Model.Txn
+variable {α : Type}
+
+/-- the operations inside a transaction (everything but its end) -/
+def TOp.inside : TOp α → Prop
+  | .commit => False
+  | .abort => False
+  | _ => True
+
+theorem inside_keeps_disk (s : St α) (ops : List (TOp α)) (h : ∀ op ∈ ops, TOp.inside op) :
+    (GoNfsd.Model.Txn.run s ops).disk = s.disk := by
+  induction ops generalizing s with
+  | nil => rfl
+  | cons op rest ih =>
+    simp only [GoNfsd.Model.Txn.run]
+    rw [ih _ (fun o ho => h o (List.mem_cons_of_mem _ ho))]
+    have := h op (by simp)
+    cases op with
+    | load i => rfl
+    | modify i f =>
+      simp only [GoNfsd.Model.Txn.step]
+      split
+      · split <;> rfl
+      · rfl
+    | evict i => rfl
+    | commit => exact absurd this (by simp [TOp.inside])
+    | abort => exact absurd this (by simp [TOp.inside])
+
+theorem inside_keeps_owned_buf (s : St α) (ops : List (TOp α)) (h : ∀ op ∈ ops, TOp.inside op)
+    (hc : Coherent s) : Coherent (GoNfsd.Model.Txn.run s ops) := by
+  induction ops generalizing s with
+  | nil => exact hc
+  | cons op rest ih =>
+    simp only [GoNfsd.Model.Txn.run]
+    refine ih _ (fun o ho => h o (List.mem_cons_of_mem _ ho)) ?_
+    -- one step keeps coherence (the protocol invariant of C10, re-proved here for the four inner operations)
+    obtain ⟨h1, h2⟩ := hc
+    have hin := h op (by simp)
+    cases op with
+    | load i =>
+      refine ⟨?_, ?_⟩
+      · intro j v hj
+        simp only [GoNfsd.Model.Txn.step] at hj ⊢
+        by_cases hji : j = i
+        · subst hji
+          simp only [if_true] at hj
+          cases hcj : s.cache j with
+          | none => simp only [hcj, Option.some.injEq] at hj; rw [← hj]; rfl
+          | some w => simp only [hcj, Option.some.injEq] at hj; rw [← hj]; exact h1 j w hcj
+        · simp only [hji, if_false] at hj
+          exact h1 j v hj
+      · intro j hj
+        simp only [GoNfsd.Model.Txn.step] at hj ⊢
+        exact List.mem_cons_of_mem _ (h2 j hj)
+    | modify i f =>
+      simp only [GoNfsd.Model.Txn.step]
+      by_cases ho : i ∈ s.owned
+      · simp only [ho, if_true]
+        cases hci : s.cache i with
+        | some v =>
+          simp only
+          refine ⟨?_, ?_⟩
+          · intro j w hj
+            simp only [St.read] at hj ⊢
+            by_cases hji : j = i
+            · simp only [hji, if_true, Option.some.injEq] at hj ⊢
+              simp [hj]
+            · simp only [hji, if_false] at hj ⊢
+              exact h1 j w hj
+          · intro j hj
+            by_cases hji : j = i
+            · rw [hji]; exact ho
+            · simp only [hji, if_false] at hj; exact h2 j hj
+        | none =>
+          simp only
+          refine ⟨?_, ?_⟩
+          · intro j w hj
+            simp only [St.read] at hj ⊢
+            by_cases hji : j = i
+            · rw [hji, hci] at hj; cases hj
+            · simp only [hji, if_false]; exact h1 j w hj
+          · intro j hj
+            by_cases hji : j = i
+            · rw [hji]; exact ho
+            · simp only [hji, if_false] at hj; exact h2 j hj
+      · simp only [ho, if_false]; exact ⟨h1, h2⟩
+    | evict i =>
+      refine ⟨?_, h2⟩
+      intro j v hj
+      simp only [GoNfsd.Model.Txn.step] at hj ⊢
+      by_cases hji : j = i
+      · simp [hji] at hj
+      · simp only [hji, if_false] at hj; exact h1 j v hj
+    | commit => exact absurd hin (by simp [TOp.inside])
+    | abort => exact absurd hin (by simp [TOp.inside])
+
+/-- AN ABORTED TRANSACTION LEAVES NO TRACE in the server's state: whatever it loaded, modified
+    (in the cached inodes, in place) or lost to eviction meanwhile — after the abort the logical
+    disk is what it was, no write is buffered, no lock is held, and every inode still cached
+    equals the disk.  (What `forgetInodes` is for: the modified cached copies are dropped.) -/
+theorem aborted_transaction_leaves_no_trace (disk : Nat → α) (body : List (TOp α))
+    (h : ∀ op ∈ body, TOp.inside op) :
+    let s := GoNfsd.Model.Txn.run (fresh disk) (body ++ [.abort])
+    s.disk = disk ∧ Quiescent s ∧ ∀ i v, s.cache i = some v → v = disk i := by
+  intro s
+  have hrun : s = step (GoNfsd.Model.Txn.run (fresh disk) body) .abort := by
+    show GoNfsd.Model.Txn.run (fresh disk) (body ++ [.abort]) = _
+    have : ∀ (t : St α) (l : List (TOp α)), GoNfsd.Model.Txn.run t (l ++ [.abort]) = step (GoNfsd.Model.Txn.run t l) .abort := by
+      intro t l
+      induction l generalizing t with
+      | nil => rfl
+      | cons o r ih => simp only [List.cons_append, GoNfsd.Model.Txn.run]; exact ih _
+    exact this _ _
+  have hd := inside_keeps_disk (fresh disk) body h
+  have hc := inside_keeps_owned_buf (fresh disk) body h ⟨by intro i v h; simp [fresh] at h, by intro i h; simp [fresh] at h⟩
+  generalize GoNfsd.Model.Txn.run (fresh disk) body = m at *
+  rw [hrun]
+  refine ⟨hd, ⟨fun _ => rfl, rfl⟩, ?_⟩
+  intro i v hv
+  simp only [GoNfsd.Model.Txn.step] at hv
+  by_cases ho : i ∈ m.owned
+  · simp [ho] at hv
+  · simp only [ho, if_false] at hv
+    have := hc.1 i v hv
+    have hb : m.buf i = none := by
+      cases hbi : m.buf i with
+      | none => rfl
+      | some w => exact absurd (hc.2 i (by rw [hbi]; simp)) ho
+    rw [this, St.read, hb]
+    simp only [Option.getD_none]
+    rw [hd]
+    rfl
+
+end cache
+
+open GoNfsd.Model.BlockMap GoNfsd.Gen.Consts in
+/-- … and at the block level: a `bmap` that cannot produce its block changes the disk block of NO
+    file block (it may have linked index blocks — which is why the request's transaction is
+    aborted — but no READ of the file can tell). -/
+theorem failed_mapping_moves_no_file_block (s : S) (blks : List Nat) (bn bn' : Nat) (h : WFB s blks)
+    (hbn : bn < NDIRECT + NBLKBLK + NBLKBLK * NBLKBLK) (hbn' : bn' < NDIRECT + NBLKBLK + NBLKBLK * NBLKBLK)
+    (hfail : (bmap s blks bn).2.2.1 = 0) :
+    lookup (bmap s blks bn).1.st (bmap s blks bn).2.1 bn' = lookup s.st blks bn' := by
+  rw [lookup_eq_ptr, lookup_eq_ptr]
+  obtain ⟨hv, hd⟩ := posOf_valid bn' hbn'
+  exact (bmap_ok s blks bn h hbn).miss hfail _ hv hd
 
 end GoNfsd.Props.C09
